@@ -173,6 +173,33 @@ def errors(cx, case="mv_shape"):
             auto = LinearOperator.m(s)
             cx.claim_true("auto Hermitian detection", bool(auto.is_hermitian) == bool(sym))
             return "symmetric" if sym else "nonsymmetric"
+        elif case == "no_mv_history":
+            # a class without _mv is rejected EVERY time it is instantiated (not only the first time), and a valid subclass
+            # of it works whatever was attempted before (fresh classes per run)
+            class NoMv(LinearOperator):
+                def __init__(self, mat):
+                    super().__init__(shape=mat.shape, dtype=mat.dtype, device=mat.device)
+                    self.m_ = mat
+
+                def _getparamnames(self, prefix=""):
+                    return [prefix + "m_"]
+
+            class WithMv(NoMv):
+                def _mv(self, x):
+                    return torch.matmul(self.m_, x.unsqueeze(-1)).squeeze(-1)
+
+            k = cx.choose(3, "history")
+            if k == 1:
+                WithMv(m)
+            if k == 2:
+                cx.claim_true("subclass before: class without _mv rejected", raises(lambda: NoMv(m)))
+                WithMv(m)
+            for i in range(3):
+                cx.claim_true("class without _mv rejected, attempt %d" % (i + 1), raises(lambda: NoMv(m)))
+            good = WithMv(m)
+            x = cx.sym("x", (3,))
+            cx.claim_eq("valid subclass of a rejected class: mv", good.mv(x), torch.matmul(m, x.unsqueeze(-1)).squeeze(-1))
+            cx.claim_true("valid subclass flags", (good.is_mv_implemented, good.is_rmv_implemented) == (True, False))
     return "ok"
 
 
@@ -273,7 +300,7 @@ def configs(tier):
         add("products/%s/sq/batch_first()_second(2)" % kind, products, kind=kind, shape="sq", ba=(), ba2=(2,))
         add("products/%s/sq/batch_first(2)_second()" % kind, products, kind=kind, shape="sq", ba=(2,), ba2=())
     add("products/add/sq/batch_first(1)_second(2)_x2", products, kind="add", shape="sq", ba=(1,), ba2=(2,), bx=(2,))
-    for case in ("mv_shape", "compose_shape", "hermitian_flag"):
+    for case in ("mv_shape", "compose_shape", "hermitian_flag", "no_mv_history"):
         add("errors/%s" % case, errors, case=case)
     for order in itertools.permutations(range(3)):
         add("history/%s/real" % "".join(map(str, order)), history, order=order)
